@@ -299,7 +299,94 @@ def _bounded_consequences(tier, seed):
 
 BOUNDED = [Bounded("algebraic_consequences", _bounded_consequences)]
 
+
+# ---------------------------------------------------------------- consequences of the moment formula, as lemmas over the spec function
+# frequency_moment is proved equal to moment_spec above; the lemmas below are properties of moment_spec itself (
+# decided in the polynomial normal form of pyvc/calculus.py: ring laws + linearity of finite sums), so they transfer to the code.  Tm02 <= Tm01 (Cauchy-Schwarz) is NOT among them: bounded.
+import z3 as _z3
+
+
+class _View:
+    """minimal 1D spectrum view over uninterpreted functions: E(i), missing flag, frequency grid"""
+    two_d = False
+
+    def __init__(self, Ef, nanf, ff, nf):
+        self._E, self._n, self.nf = Ef, nanf, nf
+        self.f = type("A", (), {"__getitem__": lambda s_, i: ff(T.to_z3(i))})()
+
+    def E(self, p, i):
+        return self._E(T.to_z3(i))
+
+    def E_nan(self, p, i):
+        return self._n(T.to_z3(i))
+
+
+def _lemma_setup():
+    Ef, E2f = _z3.Function("E_l", T.IntS, T.RealS), _z3.Function("E2_l", T.IntS, T.RealS)
+    nanf = _z3.Function("missing_l", T.IntS, T.BoolS)
+    ff = _z3.Function("f_l", T.IntS, T.RealS)
+    nf, n, power = _z3.Ints("nf_l n_l power_l")
+    fmin, fmax, c = _z3.Reals("fmin_l fmax_l c_l")
+    return Ef, E2f, nanf, ff, nf, n, power, fmin, fmax, c
+
+
+def _partial(view, power, fmin, fmax):
+    """moment_spec with a variable upper bound: the same term as moment_spec (re-used, not re-written)"""
+    f = view.f
+
+    def g(i):
+        return e_of(view, 0, i) * fpow(f[i], power)
+
+    def term(i):
+        t = (g(i) + g(i + 1)) / 2 * (f[i + 1] - f[i])
+        return If(And(in_band(f, i, fmin, fmax), in_band(f, i + 1, fmin, fmax)), t, 0)
+    return SumOf(term)
+
+
+def _normal_form_equal(lhs, rhs):
+    """lhs == rhs decided in the polynomial normal form of pyvc/calculus.py (ring laws, linearity of finite sums, If(c, x, y) = [c] x + (1 - [c]) y);
+    what is not identical there is left to the solver as the difference polynomial"""
+    from pyvc.calculus import Algebra
+    alg = Algebra()
+    pl, pr = alg.from_term(T.to_z3(lhs)), alg.from_term(T.to_z3(rhs))
+    if pl == pr:
+        return True
+    return eq(alg.to_term(alg.add(pl, alg.neg(pr))), 0)
+
+
+def _lemma_scaling():
+    """m_n(c E) = c m_n(E) for every grid, band, power and placement of missing values (the missing flags are those of E)"""
+    Ef, E2f, nanf, ff, nf, n, power, fmin, fmax, c = _lemma_setup()
+    scaled = lambda i: c * Ef(i)
+    S1, S2 = _partial(_View(Ef, nanf, ff, nf), power, fmin, fmax), _partial(_View(scaled, nanf, ff, nf), power, fmin, fmax)
+    return [nf >= 1], _normal_form_equal(S2(0, nf - 1), c * S1(0, nf - 1))
+
+
+def _lemma_additive():
+    """m_n(E1 + E2) = m_n(E1) + m_n(E2) (same missing flags)"""
+    Ef, E2f, nanf, ff, nf, n, power, fmin, fmax, c = _lemma_setup()
+    both = lambda i: Ef(i) + E2f(i)
+    S1, S2, S3 = (_partial(_View(x, nanf, ff, nf), power, fmin, fmax) for x in (Ef, E2f, both))
+    return [nf >= 1], _normal_form_equal(S3(0, nf - 1), S1(0, nf - 1) + S2(0, nf - 1))
+
+
+def _lemma_parameters():
+    """with m_n' = c m_n (c > 0, m0, m1, m2 > 0): Hm0' = sqrt(c) Hm0 (as squares of non-negative numbers), Tm01 and Tm02 unchanged"""
+    m0, m1, m2, c = _z3.Reals("m0_l m1_l m2_l c_l")
+    hm0 = lambda m: 4 * T.uf("sqrt", m)
+    hyps = [c > 0, m0 > 0, m1 > 0, m2 > 0]
+    goal = _z3.And(hm0(c * m0) * hm0(c * m0) == c * (hm0(m0) * hm0(m0)), hm0(c * m0) >= 0,
+                   (c * m0) / (c * m1) == m0 / m1, T.uf("sqrt", (c * m0) / (c * m2)) == T.uf("sqrt", m0 / m2))
+    return hyps, goal
+
+
+LEMMAS = [Lemma("moment_scaling", _lemma_scaling, "m_n(c E) = c m_n(E)"),
+          Lemma("moment_additive", _lemma_additive, "m_n(E1 + E2) = m_n(E1) + m_n(E2)"),
+          Lemma("hm0_scales_with_sqrt_c_periods_scale_invariant", _lemma_parameters, "from m_n' = c m_n")]
+
 CONTRACTS = [direction_step, e_2d, frequency_moment, m0_c, m1_c, m2_c, hm0_c, tm01_c, tm02_c, swh_c, mp_c, zcp_c]
 TRUSTED = ["xarray library contracts of pyvc/models/xr.py (alignment by dimension name, skipna sums, trapezoid integrate, lazy boolean isel)",
-           "every real other than the literal np.inf is finite"]
-EXPLANATION = "moments and integral parameters proved equal to their defining trapezoid sums for all grids, bands, NaN placements and batch sizes"
+           "every real other than the literal np.inf is finite",
+           "pyvc/calculus.py normal form (ring laws, linearity of finite sums, indicator form of If) for the scaling / additivity lemmas"]
+EXPLANATION = ("moments and integral parameters proved equal to their defining trapezoid sums for all grids, bands, NaN placements and batch sizes; "
+               "scaling, additivity, Hm0 ~ sqrt(c) and scale-invariant periods as lemmas over the spec function; Tm02 <= Tm01 bounded")
